@@ -2,7 +2,7 @@
 """Confirms seeded changes (from /tmp/seedout) in a scratch worktree and files them under /verif/seeded/<id>/.
 For each: suite passes with the patch; the demonstration fails with it and passes without it."""
 import os, sys, json, subprocess, shutil, glob, re
-WT = "/tmp/seedwt1"
+WT = os.environ.get("SEED_WT", "/tmp/seedwt1")
 ENV = dict(os.environ, GOFLAGS="-mod=mod", GOPROXY="off", GOSUMDB="off", GOTOOLCHAIN="local")
 def sh(cmd, cwd=WT, env=ENV):
     p = subprocess.run(cmd, cwd=cwd, env=env, shell=isinstance(cmd, str), capture_output=True, text=True)
